@@ -271,6 +271,36 @@ theorem forged_or_sent (S : Suite) (cs cr : Ctx) (ps : List Pkt) (raw : Bytes) (
     exact List.mem_map.mpr ⟨g, hgm, rfl⟩
   · right; exact hf
 
+/-- **forged_or_sent_session** — the key holder is a whole DIRECTION, not one context: all transmit
+contexts of a session (one per SSRC; a context re-created after an eviction counts again) share the
+RTP auth key. `css` lists them with their send histories. A receive context holding that key accepts
+`raw`. Then `raw` is bit-for-bit a packet one of those contexts put on the wire, decoded by the
+receiver under the very rollover counter that sender used — or `raw` carries a valid truncated HMAC over a
+message none of them ever authenticated. Ordinary multi-SSRC traffic no longer falls into `MacForged`. -/
+theorem forged_or_sent_session (S : Suite) (css : List (Ctx × List Pkt)) (cr : Ctx)
+    (raw : Bytes) (h : Hdr) (p : Bool) (body : Bytes)
+    (hg : cr.profile ≠ .gcm) (hrr : cr.roc < 2 ^ 32)
+    (hall : ∀ x ∈ css, x.1.profile = cr.profile ∧ x.1.rtp = cr.rtp ∧ x.1.roc < 2 ^ 32)
+    (hparse : parseHdr raw = .ok (h, p, body))
+    (hacc : ∃ pkt, (cr.unprotectRtp S h p body).1 = .ok pkt) :
+    (∃ x ∈ css, ∃ g ∈ sentBy S x.1 x.2, raw = g.wire S x.1 ∧ raw ∈ wiresBy S x.1 x.2 ∧ g.roc = cr.estimate h.seq) ∨
+    MacForged S cr.rtp.ak cr.profile.tagLen ((css.flatMap (fun x => sentBy S x.1 x.2)).map GenuineRtp.macInput)
+      (rtpAuthInput (writeHdr h p) (body.take (splitAt cr body)) (cr.estimate h.seq))
+      (body.drop (splitAt cr body)) := by
+  have hroc : ∀ g ∈ css.flatMap (fun x => sentBy S x.1 x.2), g.roc < 2 ^ 32 := by
+    intro g hgm
+    obtain ⟨x, hx, hgx⟩ := List.mem_flatMap.mp hgm
+    simpa using sentBy_roc_lt S x.2 x.1 (by simpa using (hall x hx).2.2) g hgx
+  rcases forgery_needs_collision S cr raw h p body _ hg hrr hroc hparse hacc with ⟨g, hgm, hraw, hgroc⟩ | hf
+  · left
+    obtain ⟨x, hx, hgx⟩ := List.mem_flatMap.mp hgm
+    obtain ⟨hp, hk, _⟩ := hall x hx
+    have hw : g.wire S cr = g.wire S x.1 := wire_keys S cr x.1 g hk.symm hp.symm
+    refine ⟨x, hx, g, hgx, by rw [hraw, hw], ?_, hgroc⟩
+    rw [genuine_of_protect S x.2 x.1 x.1 (by rw [hp]; exact hg) rfl rfl, hraw, hw]
+    exact List.mem_map.mpr ⟨g, hgx, rfl⟩
+  · right; exact hf
+
 /-- EVENT: AEAD-open succeeded on a `(nonce, AAD, ciphertext‖tag)` triple that is not among the triples
 `Q` the key holder produced with `seal`. -/
 def AeadForged (S : Suite) (k : Bytes) (Q : List (Bytes × Bytes × Bytes)) (nonce aad c : Bytes) : Prop :=
